@@ -102,6 +102,22 @@ def run_case(ctx, rng, idx):
         for force in ((50, "edge", True), (200, "stub", True), (200, "edge", True)):
             undirected(ctx, rng, idx, hb, [tuple(e) for e in hb.get_edges()], phase=1, force=force)
         return
+    if ctx.tier == "thorough" and idx % 30000 == 21:
+        import hypergraphx as hgx
+
+        ctx.event("300-pairwise-different-sizes")
+        nodes = list(range(0, 1200, 2))
+        hb = hgx.Hypergraph([tuple(sorted(rng.sample(nodes, sz))) for sz in range(2, 302)])
+        undirected(ctx, rng, idx, hb, [tuple(e) for e in hb.get_edges()], phase=1, force=(150, "stub", True))
+        return
+    if ctx.tier == "thorough" and idx % 30000 == 22:
+        import hypergraphx as hgx
+
+        ctx.event("two-10500-node-hyperedges")
+        hb = hgx.Hypergraph([tuple(range(0, 10500)), tuple(range(20000, 30500)), (1, 20001), (2, 3, 20002)])
+        undirected(ctx, rng, idx, hb, [tuple(e) for e in hb.get_edges()], phase=1, force=(3, "stub", True))
+        undirected(ctx, rng, idx, hb, [tuple(e) for e in hb.get_edges()], phase=1, force=(3, "edge", False))
+        return
     if idx == 1 or (ctx.tier == "thorough" and idx % 700 == 9):
         from ..gen import big_hypergraph
 
